@@ -97,7 +97,7 @@ def generate(rng, tier):
         qid += 1
     faults = {"max_delay_us": rng.choice([0, 0, 1000, 30000]), "loop_delay_us": rng.choice([0, 200, 1000]),
               "dup_p": rng.choice([0.0, 0.1]), "grid_p": 0.3}
-    return {"ops": ops, "faults": faults, "end": round(t + 3.0, 3), "jitter_mode": rng.choice([None, None, None, "min", "max"])}
+    return {"timer_slop_us": rng.choice([0, 0, 0.1]), "ops": ops, "faults": faults, "end": round(t + 3.0, 3), "jitter_mode": rng.choice([None, None, None, "min", "max"])}
 
 
 class Release:
@@ -108,7 +108,8 @@ class Release:
 
 def execute(scenario, seed, overrides=None):
     out = runner.Outcome()
-    w = World(seed, FaultConfig(**scenario.get("faults", {})), overrides, jitter_mode=scenario.get("jitter_mode"))
+    w = World(seed, FaultConfig(**scenario.get("faults", {})), overrides, jitter_mode=scenario.get("jitter_mode"),
+              timer_slop=scenario.get("timer_slop_us", 0) / 1e6)
     stats = {"queries": 0, "tc_packets": 0, "tc_trains_released_by_timer": 0, "tc_trains_released_by_packet": 0,
              "immediate": 0, "aggregated": 0, "protected": 0, "answers_judged": 0, "probes": 0, "legacy": 0,
              "jitter_forced": int(scenario.get("jitter_mode") is not None), "suppressed_by_known": 0}
@@ -220,7 +221,10 @@ def execute(scenario, seed, overrides=None):
                     st["releases"].append(rel0)
                     packets = None
             if packets is None:
-                for pkts in ([(a, b) for (a, b, c) in d["pk"]] + [(t, msg)], [(t, msg)]):
+                alts = [[(a, b) for (a, b, c) in d["pk"]] + [(t, msg)], [(t, msg)]]
+                if d.get("amb"):
+                    alts.append([(a, b) for (a, b, c) in d["pk"][d.get("amb_from", 0):]] + [(t, msg)])
+                for pkts in alts:
                     rel = Release(t, t, pkts, src_ip, rsock.label, legacy)
                     classify(rel, t * 1000.0, hm.cache)
                     rel.ambiguous = True
